@@ -138,19 +138,19 @@ fn c19(args: &Args, t0: Instant) -> i32 {
     // 1. properties on the async flavour
     type Mk = fn(&str, model::Flavor) -> checks::Spec;
     let specs: Vec<(&str, Mk, usize)> = vec![
-        ("C01", checks::c01, 7),
-        ("C02", checks::c02, 11),
-        ("C03", checks::c03, 5),
-        ("C04", checks::c04, 13),
-        ("C05", checks::c05, 11),
+        ("C01", checks::c01, 5),
+        ("C02", checks::c02, 7),
+        ("C03", checks::c03, 2),
+        ("C04", checks::c04, 5),
+        ("C05", checks::c05, 5),
         ("C06", checks::c06, 7),
-        ("C08", checks::c08, 11),
-        ("C09", checks::c09, 13),
-        ("C10", checks::c10, 5),
+        ("C08", checks::c08, 7),
+        ("C09", checks::c09, 5),
+        ("C10", checks::c10, 7),
         ("C11", checks::c11, 5),
-        ("C12", checks::c12, 3),
+        ("C12", checks::c12, 4),
         ("C15", checks::c15, 3),
-        ("C16", checks::c16, 7),
+        ("C16", checks::c16, 3),
         ("C17", checks::c17, 7),
     ];
     for (name, mk, stride) in &specs {
@@ -159,17 +159,28 @@ fn c19(args: &Args, t0: Instant) -> i32 {
         let total = spec.jobs.len();
         spec.jobs = spec.jobs.into_iter().enumerate().filter(|(i, _)| i % stride == 0).map(|(_, j)| j).collect();
         spec.rule = format!("[async {}: every {}-th program of its quick corpus ({} of {})] {}", name, stride, spec.jobs.len(), total, spec.rule);
-        let mut o = spec_outcome(spec, args, t0, if quick { budget } else { args.secs / 16 });
+        // the schedule-heavy corpora get twice the share and, in the quick tier, run at
+        // preemption bound <= 1 (their synchronous twins run at the full bounds in their own checks)
+        let heavy = matches!(*name, "C02" | "C10" | "C11" | "C12" | "C15" | "C17");
+        if quick && heavy {
+            for j in spec.jobs.iter_mut() {
+                j.bounds.iter_mut().for_each(|b| *b = (*b).min(1));
+            }
+            spec.rule = format!("[preemption bounds capped at 1] {}", spec.rule);
+        }
+        let mut o = spec_outcome(spec, args, t0, if quick { if heavy { 2 * budget } else { budget } } else { args.secs / 16 });
         o.property = format!("C19-async-{}", name);
         parts.push(o);
     }
     // 2. differential: settled corpora on both flavours, outcome sets must coincide
     parts.push(differential(args, t0, quick));
+    // 3. the fresh-cache differential of C11 on the async flavour (clear() acknowledged at the right moment)
+    parts.push(c11_differential(args, t0, Async, "C19"));
     finish(merge("C19", parts, t0))
 }
 
 /// C11: `prefix; clear(); suffix` is indistinguishable from `suffix` on a fresh cache.
-fn c11_differential(args: &Args, t0: Instant, flavor: model::Flavor) -> Outcome {
+fn c11_differential(args: &Args, t0: Instant, flavor: model::Flavor, prop: &str) -> Outcome {
     let (jobs, names) = checks::c11_diff_pairs(&args.tier, flavor);
     let programs: Vec<model::Program> = jobs.iter().map(|j| j.program.clone()).collect();
     let n = jobs.len();
@@ -185,7 +196,7 @@ fn c11_differential(args: &Args, t0: Instant, flavor: model::Flavor) -> Outcome 
             compared += 1;
             if a != b {
                 reported.push(report::Reported {
-                    property: "C11".into(),
+                    property: prop.into(),
                     check: "c11-diff".into(),
                     class: "not-like-fresh-after-clear".into(),
                     msg: format!(
@@ -206,7 +217,7 @@ fn c11_differential(args: &Args, t0: Instant, flavor: model::Flavor) -> Outcome 
         json!({ "programs_generated": n, "program_pairs_compared": compared }),
     );
     Outcome {
-        property: "C11-differential".into(),
+        property: format!("{}-clear-differential", prop),
         tier: args.tier.clone(),
         seed: args.seed,
         coverage,
@@ -331,7 +342,7 @@ fn run_check(id: &str, args: &Args) -> i32 {
         "C10" => run_spec(checks::c10(&args.tier, model::Flavor::Sync), args, t0),
         "C11" => {
             let a = spec_outcome(checks::c11(&args.tier, model::Flavor::Sync), args, t0, args.secs * 3 / 4);
-            let b = c11_differential(args, t0, model::Flavor::Sync);
+            let b = c11_differential(args, t0, model::Flavor::Sync, "C11");
             finish(merge("C11", vec![a, b], t0))
         }
         "C12" => run_spec(checks::c12(&args.tier, model::Flavor::Sync), args, t0),
